@@ -13,8 +13,8 @@ EXTENDS ModelCases, Json
 CONSTANT Prop
 Trace == ndJsonDeserialize("trace.ndjson")
 
-VARIABLES l, phase, nrej
-tvars == <<l, phase, nrej>>
+VARIABLES l, phase, nrej, sdefs
+tvars == <<l, phase, nrej, sdefs>>
 Ev == Trace[l]
 IsEvent(e) == l <= Len(Trace) /\ Trace[l].ev = e /\ l' = l + 1
 Reject(why, extra) ==
@@ -22,15 +22,17 @@ Reject(why, extra) ==
   /\ nrej' = nrej + 1
 Judge(why, extra) == IF why = "ok" THEN nrej' = nrej ELSE Reject(why, extra)
 
-TInit == l = 1 /\ phase = "init" /\ nrej = 0
+TInit == l = 1 /\ phase = "init" /\ nrej = 0 /\ sdefs = <<>>
 
 TGenerate ==
   /\ IsEvent("Generate") /\ phase = "init"
   /\ phase' = IF Ev.exit = 0 THEN "generated" ELSE "failed"
+  /\ UNCHANGED sdefs
   /\ Judge("ok", FALSE)
 TBuild ==
   /\ IsEvent("Build") /\ phase = "generated"
   /\ phase' = IF Ev.ok THEN "built" ELSE "failed"
+  /\ UNCHANGED sdefs
   /\ Judge(IF Ev.ok THEN "ok" ELSE "generation succeeded but the generated package does not build", FALSE)
 
 Schema == DefSchema(Ev.def)
@@ -54,10 +56,26 @@ WhyC05 ==
 
 TModel ==
   /\ IsEvent("Model") /\ phase = "built"
-  /\ UNCHANGED phase
+  /\ UNCHANGED <<phase, sdefs>>
   /\ Judge(IF Prop = "C02" THEN WhyC02 ELSE WhyC05, Valid(AllDefs, Schema, Ev.doc))
 
-TNext == TGenerate \/ TBuild \/ TModel
+\* ---- C18: the scanner is run on the generated package
+TScanRun ==
+  /\ IsEvent("ScanRun") /\ phase \in {"generated", "built"}
+  /\ phase' = IF Ev.ok THEN "scanned" ELSE "failed"
+  /\ sdefs' = IF Ev.ok THEN Ev.defs ELSE <<>>
+  /\ Judge(IF Ev.ok THEN "ok" ELSE IF Ev.panicked THEN "the scanner panicked on the generated models" ELSE "the scanner fails on the generated models", FALSE)
+
+SetToText(S) == IF S = {} THEN "" ELSE LET x == CHOOSE y \in S : TRUE IN x
+RECURSIVE JoinSet(_)
+JoinSet(S) == IF S = {} THEN "" ELSE LET x == CHOOSE y \in S : TRUE IN x \o " " \o JoinSet(S \ {x})
+TScanned ==
+  /\ IsEvent("Scanned") /\ phase = "scanned"
+  /\ UNCHANGED <<phase, sdefs>>
+  /\ LET diffs == IF Ev.found THEN SchemaDiffs(DefSchema(Ev.def), Ev.schema, "", sdefs) ELSE {"definition missing"} IN
+     Judge(IF diffs = {} THEN "ok" ELSE JoinSet(diffs), FALSE)
+
+TNext == TGenerate \/ TBuild \/ TModel \/ TScanRun \/ TScanned
 TSpec == TInit /\ [][TNext]_tvars
 Consumed == TLCGet("stats").diameter - 1 = Len(Trace)
 =============================================================================
